@@ -113,6 +113,9 @@ def replace_child(node, label: str, new):
         b[p[1]] = new
         return dataclasses.replace(node, bindings=constantdict(b))
     if p[0] == "container":
+        from pytato.function import NamedCallResult
+        if isinstance(node, NamedCallResult):
+            return new[node.name]           # call results are the call's memoised members
         return dataclasses.replace(node, _container=new)
     if p[0] == "function":
         return dataclasses.replace(node, function=new)
